@@ -125,6 +125,35 @@ int main(void)
 				} else printf("ok false\n");
 				free(pg); free(cp);
 			}
+		} else if ((H_IS(0, "fmtx") || H_IS(0, "specx")) && h_ntok == 13) {
+			/* fmtx lvl region pgno subno flags national x28 cs0 cs1 fgclut bgclut hex1000: a page with
+			   x28_designations and its own extension record (what X/28/0, X/28/4 leave in the cache) */
+			long long x28, cs0, cs1, fgc, bgc;
+			char *hex = h_tok[12];
+			int ok = NUM(7, x28) && NUM(8, cs0) && NUM(9, cs1) && NUM(10, fgc) && NUM(11, bgc)
+				&& x28 >= 0 && x28 < 0x1000000 && cs0 >= 0 && cs0 < 256 && cs1 >= 0 && cs1 < 256
+				&& fgc >= 0 && fgc <= 32 && bgc >= 0 && bgc <= 48;
+			h_tok[7] = hex; h_ntok = 8;
+			if (!ok || !parse_page_args(1, &lvl, &rg, &pgno, &sn, &fl, &na, &b)) printf("rej parse\n");
+			else {
+				cache_page *cp = calloc(1, sizeof *cp);
+				vbi_page *pg = malloc(sizeof *pg);
+				struct ttx_extension *ext = &cp->data.ext_lop.ext;
+				memset(pg, 0x5A, sizeof *pg);
+				cp->function = PAGE_FUNCTION_LOP;
+				cp->pgno = (int) pgno; cp->subno = (int) sn; cp->flags = (int) fl; cp->national = (int) na;
+				cp->lop_packets = 0x3FFFFFF;
+				memcpy(cp->data.lop.raw, b, 1000);
+				memset(cp->data.lop.raw[25], 0x20, 40);
+				cp->x28_designations = (unsigned int) x28;
+				ext->charset_code[0] = (int) cs0; ext->charset_code[1] = (int) cs1;
+				ext->foreground_clut = (unsigned int) fgc; ext->background_clut = (unsigned int) bgc;
+				vbi_teletext_set_default_region(dec, (int) rg);
+				if (vbi_format_vt_page(dec, pg, cp, level_of(lvl), 25, FALSE)) {
+					printf("ok "); put_cells(pg); printf("\n");
+				} else printf("ok false\n");
+				free(pg); free(cp);
+			}
 		} else if (H_IS(0, "evcount") && h_ntok == 4) {
 			if (!(NUM(1, v) && NUM(2, v2) && NUM(3, v3))) printf("rej parse\n");
 			else {
@@ -153,11 +182,12 @@ int main(void)
 				vbi_decode(dec, &sl, 1, now);
 				printf("ok\n");
 			}
-		} else if (H_IS(0, "fetch") && h_ntok >= 6) {
+		} else if ((H_IS(0, "fetch") || H_IS(0, "fetchx")) && h_ntok >= 6) {
+			/* fetchx = fetch whose expectation (driver side) carries the page's X/28 record: 5 more tokens */
 			long long any = 0;
 			if (!(NUM(1, lvl) && NUM(2, rg) && NUM(3, pgno))) printf("rej parse\n");
 			else if (0 == strcmp(h_tok[4], "any") ? (any = 1, 0) : !NUM(4, sn)) printf("rej parse\n");
-			else if (!(h_ntok == 6 && H_IS(5, "none")) && h_ntok != 18) printf("rej parse\n");
+			else if (!(h_ntok == 6 && H_IS(5, "none") && H_IS(0, "fetch")) && h_ntok != (H_IS(0, "fetchx") ? 23 : 18)) printf("rej parse\n");
 			else if (!((lvl == 1 || lvl == 2) && rg >= 0 && rg < 88)) printf("rej parse\n");
 			else {
 				vbi_page *pg = malloc(sizeof *pg), *pn = malloc(sizeof *pn);
